@@ -98,6 +98,16 @@ def pred_check(v, tier, seed):
                     m = re.search(rf"{key}=(\w+)", l)
                     if m and m.group(1) != want:
                         return f"{what}: answers {m.group(1)}, by the documentation {want}; state: {l[:300]}"
+                # prunes::sent_messages_limit by its documentation: prunes iff some process has sent more messages than the limit;
+                # limits (m-1, m, m+1) around m = the largest sent-message count of any process
+                ps = re.search(r"psm=([01p]{3})", l)
+                cnts = [int(x) for x in re.findall(r";s=(\d+);r=", l)]
+                if ps and cnts and "p" not in ps.group(1):
+                    mxs = max(cnts)
+                    want = "".join("1" if mxs > lim else "0" for lim in (max(mxs - 1, 0), mxs, mxs + 1))
+                    if ps.group(1) != want:
+                        return (f"prunes::sent_messages_limit at limits ({max(mxs - 1, 0)}, {mxs}, {mxs + 1}) with sent counts {cnts}: prunes = {ps.group(1)}, "
+                                f"by the documentation {want}; state: {l[:260]}")
                 # prunes::proc_permutations by its documentation: a state is pruned unless the processes' first mentions in the current
                 # run follow the given order (here: all processes in name order, and in reverse name order)
                 pp = re.search(r"ppp=([01p]{2}) fm=([\w.]*)", l)
@@ -181,7 +191,7 @@ PROPS = {
             "suites": [sim("sim_logs", "C17", dict(p_fault=0.5, p_crash=0.4, p_link=0.3, nodes=(2, 3), procs=(2, 4)),
                            nontrivial=lambda st: st["received"] and (st["dropped"] or st["crash"]),
                            extra=lambda rng, tier: [(f"cb{i}", sim_suite.gen_crash_burst(rng)) for i in range(150 if tier == "quick" else 3000)])]},
-    "C18": {"ready": True, "replay": auto_replay, "suites": [lambda v, tier, seed: py_suite.run(v, tier, seed), py_suite.copy_isolation],
+    "C18": {"ready": True, "replay": auto_replay, "suites": [lambda v, tier, seed: py_suite.run(v, tier, seed), py_suite.copy_isolation, py_suite.restore_probe],
             "partial": "pickle, deepcopy, PyO3 conversions and JSON text are runtime behaviour covered by the correspondence runs only"},
     "C19": {"ready": True, "replay": mc_checks.replay, "suites": [pred_check],
             "partial": "state_depth_current_run is proved only in its sound half (finding D11); time_limit (wall clock) is outside the model"},
